@@ -4,10 +4,10 @@ from ..sim import gen as GEN, build as B, mon as MON
 from ..ref import si as SI
 
 
-def general_scenario(rng, i, tier):
+def general_scenario(rng, i, tier, extra_prof=None):
     """the common workload: a mixture of profiles so that every regime is reached in every run"""
     m = i % 8
-    prof = {}
+    prof = dict(extra_prof or {})
     if tier == 'thorough':
         prof['max_stages'] = rng.choice([2, 3, 4, 5])
     force = None
